@@ -37,6 +37,13 @@ pub uninterp spec fn dec_text(v: usize) -> Seq<char>;
 pub uninterp spec fn char_text(c: char) -> Seq<char>;
 impl DisplayText for usize { open spec fn dt(&self) -> Seq<char> { dec_text(*self) } }
 impl DisplayText for char { open spec fn dt(&self) -> Seq<char> { char_text(*self) } }
+/// other integer types (a changed body that prints one is judged instead of refused): uninterpreted texts
+pub uninterp spec fn int_text(v: int, bits: int) -> Seq<char>;
+impl DisplayText for u16 { open spec fn dt(&self) -> Seq<char> { int_text(*self as int, 16) } }
+impl DisplayText for u32 { open spec fn dt(&self) -> Seq<char> { int_text(*self as int, 32) } }
+impl DisplayText for u64 { open spec fn dt(&self) -> Seq<char> { int_text(*self as int, 64) } }
+impl DisplayText for i32 { open spec fn dt(&self) -> Seq<char> { int_text(*self as int, -32) } }
+impl DisplayText for i64 { open spec fn dt(&self) -> Seq<char> { int_text(*self as int, -64) } }
 impl DisplayText for String { open spec fn dt(&self) -> Seq<char> { self@ } }
 impl<'a> DisplayText for &'a str { open spec fn dt(&self) -> Seq<char> { self@ } }
 impl<'a, T: DisplayText> DisplayText for &'a T { open spec fn dt(&self) -> Seq<char> { (**self).dt() } }
